@@ -194,7 +194,9 @@ class Session:
                 mp = _STAMP.get("maxpair")
                 aux["pair"] = None if not mp else [self.taxon_index[id(mp[0])], self.taxon_index[id(mp[1])]]
         elif k == "SuppressUnifurcations":
-            t.suppress_unifurcations()
+            # update_bipartitions=True only edits the stored encoding list (no structural effect): the model's
+            # OSuppressUnifurcations has no flag, the oracle checks the list against a fresh encoding
+            t.suppress_unifurcations(update_bipartitions=(len(op) > 1 and bool(op[1])))
         elif k == "CollapseUnweighted":
             t.collapse_unweighted_edges(threshold=op[1] * UNIT, update_bipartitions=op[2])
         elif k == "ResolvePolytomies":
@@ -303,8 +305,14 @@ class Session:
             want.append(m)
         enc = t.bipartition_encoding
         got = sorted(b._leafset_bitmask for b in (enc or []))
+        if len(got) != len(want):
+            return "bipartition_encoding has %d entries for %d edges (masks %s, a fresh encoding gives %s)" % (
+                len(got), len(want), got, sorted(want))
         if got != sorted(want):
             return "bipartition_encoding lists masks %s, a fresh encoding gives %s" % (got, sorted(want))
+        edge_bips = set(id(n.edge._bipartition) for n in t.postorder_node_iter())
+        if any(id(b) not in edge_bips for b in enc):
+            return "bipartition_encoding holds a Bipartition object that no edge of the tree carries"
         return None
 
 
@@ -412,7 +420,9 @@ def gen_op(rng, sess, spec, kinds=KINDS, allow_leaf_reseed=False):
         if not nonseed:
             return None
         return [k, rng.choice(nonseed), ub, su]
-    if k in ("SuppressUnifurcations", "Deroot"):
+    if k == "SuppressUnifurcations":
+        return [k, rng.random() < 0.5]
+    if k == "Deroot":
         return [k]
     if k in ("CollapseBasal", "PolytomizeRoot"):
         return [k, B(rng)]
@@ -575,7 +585,7 @@ def observe(case):
         for op in case["ops"]:
             err = None
             aux = {}
-            wants_ub = UB_POS.get(op[0]) is not None and op[UB_POS[op[0]]] is True
+            wants_ub = UB_POS.get(op[0]) is not None and len(op) > UB_POS[op[0]] and op[UB_POS[op[0]]] is True
             if wants_ub:
                 # the property speaks about trees whose encoding was current: make it so (no structural effect
                 # with both flags off)
@@ -607,7 +617,7 @@ def observe(case):
 
 
 # position of the update_bipartitions flag in the op forms
-UB_POS = {"ReseedAt": 2, "ToOutgroup": 2, "RerootAtNode": 2, "RerootAtEdge": 4, "RerootAtMidpoint": 1,
+UB_POS = {"SuppressUnifurcations": 1, "ReseedAt": 2, "ToOutgroup": 2, "RerootAtNode": 2, "RerootAtEdge": 4, "RerootAtMidpoint": 1,
           "CollapseUnweighted": 2, "ResolvePolytomies": 3, "PruneSubtree": 2, "FilterLeafNodes": 3,
           "PruneLeavesWithoutTaxa": 2, "PruneNodes": 3, "PruneTaxa": 2, "RetainTaxa": 2, "RandomlyReorient": 2}
 
@@ -995,7 +1005,7 @@ def alphabet(spec, ntaxa, detached):
     ids = [n["id"] for n in nodes]
     by = {n["id"]: n for n in nodes}
     internal = [i for i in ids if by[i]["kids"]]
-    ops = [["SuppressUnifurcations"], ["Deroot"], ["Ladderize", True], ["Ladderize", False], ["Reorder", False],
+    ops = [["SuppressUnifurcations", False], ["SuppressUnifurcations", True], ["Deroot"], ["Ladderize", True], ["Ladderize", False], ["Reorder", False],
            ["Encode", True, True], ["CollapseUnweighted", 512, False], ["ResolvePolytomies", 2, None, False],
            ["ResolvePolytomies", 2, 7, False], ["PruneLeavesWithoutTaxa", True, False, True],
            ["RandomlyRotate", 3], ["RandomlyReorient", 5, False], ["ShuffleTaxa", False, 11], ["SetRooted", True],
